@@ -1309,7 +1309,7 @@ impl<'a> LL1Validator {
         }
     }
 
-    fn skip_first(cst: &Cst<'_>, op: Regex) -> Regex {
+    fn skip_first(cst: &Cst<'_>, op: Regex) -> Option<Regex> {
         let Regex::Concat(concat) = op else {
             unreachable!()
         };
@@ -1317,7 +1317,6 @@ impl<'a> LL1Validator {
             .operands(cst)
             .filter(|op| !matches!(op, Regex::Predicate(_)))
             .nth(1)
-            .unwrap()
     }
 
     #[allow(clippy::too_many_arguments)]
@@ -1335,7 +1334,10 @@ impl<'a> LL1Validator {
         let mut related = vec![];
         for op in branches.skip(i + 1) {
             let op = if left_rec {
-                Self::skip_first(cst, op)
+                match Self::skip_first(cst, op) {
+                    Some(op) => op,
+                    None => continue,
+                }
             } else {
                 op
             };
@@ -1384,7 +1386,12 @@ impl<'a> LL1Validator {
                     })
                     .enumerate()
                 {
-                    let op = Self::skip_first(cst, *branch);
+                    // a left recursive branch without anything after the recursive
+                    // reference (e.g. `x: ?1 x | A;`) can never consume a token
+                    let Some(op) = Self::skip_first(cst, *branch) else {
+                        diags.push(Diagnostic::consume_tokens(&branch.span(cst)));
+                        continue;
+                    };
 
                     if !Self::has_predicate(cst, *branch) {
                         let prediction = &sema.predict_sets[&op.syntax()];
